@@ -222,12 +222,15 @@ def shard_xhash(G, alg: str, seed: int, acc) -> None:
     d = seams.Drbg(("C03x", seed, alg))
     seeds = [d.bytes(64) for _ in range(2)]
     n = 0
-    for order in itertools.permutations(HASHES):
+    fixed_nonce = d.bytes(32)
+    fixed_e_raw = int.from_bytes(d.bytes(66), "big")
+    for oi, order in enumerate(itertools.permutations(HASHES)):
         for s_i, l2seed in enumerate(seeds):
             for h in order:
                 case = ["xhash", alg, list(order), s_i, h]
+                # odd orders re-use the very same nonce / ephemeral key under every hash (identical key identifier), even ones draw fresh values
                 if alg == "nonce":
-                    nonce = d.bytes(32)
+                    nonce = fixed_nonce if oi % 2 else d.bytes(32)
                     enc_env = dec_env = G.GroupKeyEnvelope(version=1, flags=2, l0=361, l1=3, l2=4, root_key_identifier=d.uuid(), kdf_algorithm="SP800_108_CTR_HMAC", kdf_parameters=gkdi.pack_kdf_params(h),
                                                            secret_algorithm="DH", secret_parameters=b"", private_key_length=512, public_key_length=2048, domain_name="", forest_name="", l1_key=b"", l2_key=l2seed)
                     rnd, ref_kek, ref_info = nonce, gkdi.kek_nonce(h, l2seed, nonce), nonce
@@ -247,7 +250,7 @@ def shard_xhash(G, alg: str, seed: int, acc) -> None:
                                   secret_parameters=params, private_key_length=priv, public_key_length=pub, domain_name="", forest_name="")
                     enc_env = G.GroupKeyEnvelope(flags=1, l1_key=b"", l2_key=gpub, **common)
                     dec_env = G.GroupKeyEnvelope(flags=2, l1_key=b"", l2_key=l2seed, **common)
-                    e = 3 + int.from_bytes(d.bytes(plen), "big") % (SMALL_P - 5 if alg == "DHsmall" else 2 ** (8 * plen - 2))
+                    e = 3 + (fixed_e_raw if oi % 2 else int.from_bytes(d.bytes(plen), "big")) % (SMALL_P - 5 if alg == "DHsmall" else 2 ** (8 * plen - 2))
                     rnd = e.to_bytes(plen, "big")
                     z, sh = gkdi.shared_secret(salg, e, gpub)
                     ref_kek, ref_info = gkdi.kek_from_shared(h, z, sh), gkdi.public_key(salg, params, e)
